@@ -62,18 +62,28 @@ def write_maxquant(path, psms, with_quant=True, header_case=str):
     f.close()
 
 
+def flanked(pepstr, i, flanks):
+    """flank styles of Percolator result files: none; "-.X.-" (what andromeda2pin writes); the neighbouring residues "K.X.A" (pin files
+    of other search engines; "-" at a protein terminus); mixed files whose FIRST row has the one or the other form"""
+    if not flanks:
+        return pepstr
+    if flanks is True or flanks == "dash" or (flanks == "dash_first" and i == 0) or (flanks == "residue_first" and i > 0 and i % 3 == 0):
+        return "-." + pepstr + ".-"
+    return "KRAG-ML"[i % 7] + "." + pepstr + "." + "ASG-KEP"[(i * 3) % 7]
+
+
 def write_percolator(path, psms, mokapot=False, flanks=True):
     f, w = _w(path)
     if mokapot:
         w.writerow(["SpecId", "Label", "ScanNr", "ExpMass", "CalcMass", "Peptide", "mokapot score", "mokapot q-value",
                     "mokapot PEP", "Proteins"])
         for i, p in enumerate(psms):
-            pepstr = ("-." + p.get("mod", p["peptide"]) + ".-") if flanks else p.get("mod", p["peptide"])
+            pepstr = flanked(p.get("mod", p["peptide"]), i, flanks)
             w.writerow([f"raw1_{i}_2_1", 1, i, 1000.0, 1000.0, pepstr, 1.0, 0.01, repr(float(p["pep"])), "\t".join(p["proteins"])])
     else:
         w.writerow(["PSMId", "score", "q-value", "posterior_error_prob", "peptide", "proteinIds"])
         for i, p in enumerate(psms):
-            pepstr = ("-." + p.get("mod", p["peptide"]) + ".-") if flanks else p.get("mod", p["peptide"])
+            pepstr = flanked(p.get("mod", p["peptide"]), i, flanks)
             w.writerow([f"raw1_{i}_2_1", 1.0, 0.01, repr(float(p["pep"])), pepstr] + list(p["proteins"]))
     f.close()
 
